@@ -148,7 +148,7 @@ def make_corpus(ctx, tree, exprs):
         add("own/" + os.path.basename(f), f, [], "own")
     tests = sorted(glob.glob(tree + "/test/*.c"))
     for f in tests if not q else vt.subsample(tests, ctx.seed, 2):
-        add("test/" + os.path.basename(f), f, ["-I" + tree + "/test"], "test")
+        add("test/" + os.path.basename(f), f, ["-I" + tree + "/test", "-I" + tree], "test")     # -I<tree>: pragma-once.c includes "test/pragma-once.c"
     gen = [("layout/%d" % n, layout_file(n)) for n in range(40 if q else 400)]
     gen += [("expr/%d" % j, t) for j, t in enumerate(exprs)]
     gen += seed_files(ctx, 1 if q else 24)
